@@ -30,7 +30,7 @@ RULE = ('E-hist: BFS from the initial interpreter state over a menu of %d real A
         '<= p preemptions of two real threads (settrace baton scheduler; line / call / opcode granularity) for a set of operation pairs, both '
         'results compared with the sequential references, each failing schedule replayed twice. E-space: re-encoding every C02 / C04-boundary '
         'configuration with the reported version, level and mask reproduces the matrix.' % len(O.OPS))
-BOUNDS = {'quick': 'histories n <= 2 (all ordered pairs); schedules p <= 1 at line granularity for 3 encoder pairs and at call granularity for 2 encoder + 6 serializer / automatic-mask pairs',
+BOUNDS = {'quick': 'histories n <= 2 (all ordered pairs); schedules p <= 1 at line granularity for 3 encoder pairs and at call granularity for 2 encoder + 6 serializer / automatic-mask pairs (for the four same-operation pairs only thread 0 is preempted in the quick tier)',
           'thorough': 'histories n <= 3 on a 22-operation core menu (n <= 2 on all); p <= 1 at line granularity for all small pairs, at call '
                       'granularity for 6 large pairs, at opcode granularity for 2 pairs; p <= 2 for (fail_mode || make M1) at line and '
                       '(fail_mode || save ppm) at call granularity'}
@@ -49,6 +49,7 @@ PAIRS_SAVE = [('ppm_small_a', 'ppm_small_b'), ('png_small', 'svg_small'), ('seq_
               ('iter_verbose_v2_a', 'iter_verbose_v2_b'), ('make_1h', 'make_1h_other')]
 PAIRS_LARGE = [('save_ppm_colormap', 'save_ppm_colormap_b'), ('save_png_palette', 'save_svg'),
                ('seq_count', 'make_m2_alnum'), ('save_png_colorful', 'make_m1_numeric'), ('make_m2_alnum', 'fail_overflow')]
+SAME_SHAPE = {('make_m1_numeric', 'make_m1_other'), ('ppm_small_a', 'ppm_small_b'), ('iter_verbose_v2_a', 'iter_verbose_v2_b'), ('make_1h', 'make_1h_other')}
 LIBDIR = os.path.dirname(os.path.realpath(segno.__file__))
 
 
@@ -277,8 +278,11 @@ def main(tier, seed, jobs, t0):
     # pristine pool: workers are forked now, before this process executes any library operation
     ctx = mp.get_context('fork')
     pool = ctx.Pool(jobs)
+    phase = {}
+    tp = time.time()
     try:
         refs_by_seed = fresh_refs()
+        phase['fresh_references_s'] = round(time.time() - tp, 1); tp = time.time()
         refs = {}
         for name, d in refs_by_seed.items():
             if len(set(d.values())) != 1:
@@ -307,6 +311,7 @@ def main(tier, seed, jobs, t0):
                     if len(ops) < depth_bound:
                         frontier.append(ops)
                     max_depth = max(max_depth, len(ops))
+        phase['bfs_s'] = round(time.time() - tp, 1); tp = time.time()
         extra['bfs_states'] = len(seen_hist)
         extra['bfs_transitions'] = transitions
         extra['bfs_max_depth_with_new_state'] = max_depth
@@ -323,6 +328,7 @@ def main(tier, seed, jobs, t0):
                 nh += 1
                 judge_history(ops, st, res, refs, acc, s0, states)
         extra['explicit_histories'] = nh
+        phase['explicit_histories_s'] = round(time.time() - tp, 1); tp = time.time()
         extra['history_length_bound'] = 2 if q else 3
         if len(states) == 1:
             acc.sample({'E-hist': 'every one of the %d operations maps the initial state S0 to S0 (self-loops): reachable state set {S0}' % len(O.OPS)})
@@ -333,12 +339,17 @@ def main(tier, seed, jobs, t0):
         sched_detail = []
         outcomes = set()
         for (a, b, gran, bound) in plan:
+            tp = time.time()
             status, prefs, steps, _s2 = pool.apply(pair_profile, (a, b, gran))
             if status != 'ok':
                 acc.violation('thread-unstable/%s+%s' % (a, b), 'pair (%s, %s): even the two non-preemptive schedules disagree with the sequential '
                               'references or with each other (steps %r)' % (a, b, steps), ('sched', a, b, gran, 0, []))
             steps = tuple(max(x, y) for x, y in zip(steps, _s2))
             allsch = list(sched.schedules(steps, bound))
+            if q and (a, b) in SAME_SHAPE:
+                # quick tier: both threads run the same operation on different data; only thread 0 is preempted (the mirrored half is
+                # the same set of interleavings up to renaming the data) - the thorough tier runs both halves
+                allsch = [sc for sc in allsch if sc[0] == 0 or not sc[1]]
             random.Random(seed).shuffle(allsch)
             size = max(1, min(200, len(allsch) // (jobs * 4) or 1))
             tasks = [(a, b, gran, allsch[i:i + size]) for i in range(0, len(allsch), size)]
@@ -357,13 +368,14 @@ def main(tier, seed, jobs, t0):
                                   rec.get('deadlock') or ('result of thread(s) %r differs from the sequential reference; replayed twice identically: %r'
                                                           % (rec.get('which'), rec.get('replay_identical')))))
                         acc.violation(key, msg, ('sched', a, b, gran, rec['start'], rec['switches']), obs=rec.get('observed'))
-            want = sched.count_schedules(steps, bound)
+            want = len(allsch)
             if n != want:
                 raise runner.CheckerError('pair %s/%s: executed %d schedules, enumeration predicts %d' % (a, b, n, want))
             sched_total += n
-            sched_detail.append({'pair': [a, b], 'granularity': gran, 'preemption_bound': bound, 'scheduling_points': list(steps), 'schedules': n,
+            sched_detail.append({'seconds': round(time.time() - tp, 1), 'pair': [a, b], 'granularity': gran, 'preemption_bound': bound, 'scheduling_points': list(steps), 'schedules': n,
                                  'failing': nbad})
         extra['schedules'] = sched_total
+        extra['phase_seconds'] = phase
         extra['schedule_pairs'] = sched_detail
         acc.sample({'schedule': {'pair': list(plan[0][:2]), 'start': 0, 'preemption_points': [17]}, 'oracle': 'both thread results equal the sequential references'})
         acc.states |= {runner.h8(s) for s in states}
